@@ -384,31 +384,35 @@ func checkRanges(c *hx.Case, src []byte, f *hcl.File) map[string]int {
 func TestC14_Ranges(t *testing.T) {
 	hx.Run(t, "C14", "Ranges", 8000,
 		"error-free configuration (body tree with attributes over G-EXPR, blocks with bare / quoted / escaped labels, templates, heredocs) rendered in a random layout (comments, newlines inside brackets, CRLF, BOM); oracle = the source itself: NameRange / TypeRange / function and variable names slice to the name, label ranges to text denoting the label, brace / bracket / parenthesis ranges to that character, operator ranges (=, unary symbol, splat marker, the text between binary operands) to the operator, child ranges lie inside parent ranges, attribute range = name start .. value end, and every expression's range slices to text that re-parses (ParseExpression) without error to the same AST modulo ranges; non-trivial = >=3 nested expression levels and a block with labels; distinct by source",
-		func(c *hx.Case) {
-			t := c.T
-			sc := gen.DrawScope(t, gen.ScopeOpts{Nulls: 10})
-			tree := drawConfig(t, sc, 2, gen.ExprOpts{HostileLits: true, Budget: 12})
-			src, _ := render.File(tree, rchooser{t}, drawBodyOpts(t))
-			c.Set("source", src)
-			f, diags := hclsyntax.ParseConfig([]byte(src), "t.hcl", hcl.InitialPos)
-			if diags.HasErrors() {
-				c.Failf("parse-error", "%s", diagStr(diags))
-			}
-			counts := checkRanges(c, []byte(src), f)
-			featClassesN(c, "checked_", counts)
-			labelled := false
-			var scan func(b *ast.Body)
-			scan = func(b *ast.Body) {
-				for _, bl := range b.Blocks() {
-					if len(bl.Labels) > 0 {
-						labelled = true
-					}
-					scan(bl.Body)
-				}
-			}
-			scan(tree)
-			c.Done(labelled && counts["expression"] >= 6, src)
-		})
+		caseC14Ranges)
 }
+
+func caseC14Ranges(c *hx.Case) {
+	t := c.T
+	sc := gen.DrawScope(t, gen.ScopeOpts{Nulls: 10})
+	tree := drawConfig(t, sc, 2, gen.ExprOpts{HostileLits: true, Budget: 12})
+	src, _ := render.File(tree, rchooser{t}, drawBodyOpts(t))
+	c.Set("source", src)
+	f, diags := hclsyntax.ParseConfig([]byte(src), "t.hcl", hcl.InitialPos)
+	if diags.HasErrors() {
+		c.Failf("parse-error", "%s", diagStr(diags))
+	}
+	counts := checkRanges(c, []byte(src), f)
+	featClassesN(c, "checked_", counts)
+	labelled := false
+	var scan func(b *ast.Body)
+	scan = func(b *ast.Body) {
+		for _, bl := range b.Blocks() {
+			if len(bl.Labels) > 0 {
+				labelled = true
+			}
+			scan(bl.Body)
+		}
+	}
+	scan(tree)
+	c.Done(labelled && counts["expression"] >= 6, src)
+}
+
+func FuzzC14_Ranges(f *testing.F) { hx.Fuzz(f, "C14", "Ranges", caseC14Ranges) }
 
 var _ = rapid.Bool
